@@ -46,12 +46,13 @@ def _validate_batch(args):
     return vs, res["generated"], res["distinct"]
 
 
-def validate(name, cases, module="TraceDt", cfg=None, batch=400, timeout=1800, jobs=12):
+def validate(name, cases, module="TraceDt", cfg=None, batch=400, timeout=1800, jobs=14):
     """returns (verdict list aligned with cases, states generated, distinct states)"""
     cfg = cfg or module
     wd = tlc.workdir(name + "_trace")
     for i, c in enumerate(cases):
         c["tid"] = i + 1
+    batch = max(40, min(batch, (len(cases) + jobs - 1) // jobs))     # use all the JVMs we are allowed
     batches = [cases[i:i + batch] for i in range(0, len(cases), batch)]
     verdicts = {}
     gen = dist = 0
